@@ -437,7 +437,7 @@ theorem fdtCompleted_silent (L : I.Law) (toi : Nat) (s s' : State σ) (id : Nat)
 
 
 theorem fdtEntry_objects (I : ObjIface σ) (s : State σ) (id : Nat) :
-    (fdtEntry I s id).1.objects = s.objects := by
+    (fdtEntry I s id p).1.objects = s.objects := by
   unfold fdtEntry
   split <;> rfl
 
@@ -460,10 +460,10 @@ theorem fdtDispatch_silent (L : I.Law) (toi : Nat) (s s' : State σ) (id : Nat) 
           obtain ⟨rfl, _, rfl⟩ := h; exact ⟨hinv, Silent.nil⟩
   · exact fdtCompleted_silent L toi s s' id r evs h hinv hna
 
-theorem pushFdtObj_silent (L : I.Law) (toi : Nat) (s s' : State σ) (p : Pkt) (now : Int)
-    (ans : FdtAns) (r : Res) (evs : List Ev) (h : pushFdtObj I s p now ans = .ok (s', r, evs))
+theorem pushFdtObjP_silent (L : I.Law) (toi : Nat) (s s' : State σ) (p : Pkt) (now : Int)
+    (ans : FdtAns) (r : Res) (evs : List Ev) (h : pushFdtObj' I s p now ans = .ok (s', r, evs))
     (hinv : InvT L toi s.objects) (hna : ∀ i, Ev.attach toi i ∉ evs) : StepSilent L toi s' evs := by
-  unfold pushFdtObj at h
+  unfold pushFdtObj' at h
   split at h
   · split at h
     · simp only [Except.ok.injEq, Prod.mk.injEq] at h
@@ -486,6 +486,12 @@ theorem pushFdtObj_silent (L : I.Law) (toi : Nat) (s s' : State σ) (p : Pkt) (n
           refine fdtDispatch_silent L toi _ s' id f now r evs h ?_ hna
           simp only []
           rw [fdtEntry_objects]; exact hinv
+
+theorem pushFdtObj_silent (L : I.Law) (toi : Nat) (s s' : State σ) (p : Pkt) (now : Int)
+    (ans : FdtAns) (r : Res) (evs : List Ev) (h : pushFdtObj I s p now ans = .ok (s', r, evs))
+    (hinv : InvT L toi s.objects) (hna : ∀ i, Ev.attach toi i ∉ evs) : StepSilent L toi s' evs :=
+  pushFdtObjP_silent L toi (dropConflict s p) s' p now ans r evs h
+    (by rw [(dropConflict_frame s p).1]; exact hinv) hna
 
 theorem push_silent (L : I.Law) (toi : Nat) (s s' : State σ) (p : Pkt) (now : Int)
     (ans : FdtAns) (r : Res) (evs : List Ev) (h : push I s p now ans = .ok (s', r, evs))
@@ -813,11 +819,11 @@ theorem fdtDispatch_na (L : I.Law) (toi : Nat) (s s' : State σ) (id : Nat) (f :
   · rename_i hst
     exact fdtCompleted_na L toi s s' id now r evs f hf (hu hst) h hinv hexp
 
-theorem pushFdtObj_na (L : I.Law) (toi : Nat) (s s' : State σ) (p : Pkt) (now : Int) (ans : FdtAns)
-    (r : Res) (evs : List Ev) (h : pushFdtObj I s p now ans = .ok (s', r, evs))
+theorem pushFdtObjP_na (L : I.Law) (toi : Nat) (s s' : State σ) (p : Pkt) (now : Int) (ans : FdtAns)
+    (r : Res) (evs : List Ev) (h : pushFdtObj' I s p now ans = .ok (s', r, evs))
     (hinv : InvT L toi s.objects) (hexp : Hexp toi now s'.fdtCurrent) :
     ∀ i, Ev.attach toi i ∉ evs := by
-  unfold pushFdtObj at h
+  unfold pushFdtObj' at h
   split at h
   · split at h
     · simp only [Except.ok.injEq, Prod.mk.injEq] at h
@@ -849,6 +855,13 @@ theorem pushFdtObj_na (L : I.Law) (toi : Nat) (s s' : State σ) (p : Pkt) (now :
 
 /-- One call: if every instance of `fdt_current` (after the call) that is usable at the call's time
     does not list `toi`, the call attaches nothing to `toi` and makes no writer call for it. -/
+theorem pushFdtObj_na (L : I.Law) (toi : Nat) (s s' : State σ) (p : Pkt) (now : Int) (ans : FdtAns)
+    (r : Res) (evs : List Ev) (h : pushFdtObj I s p now ans = .ok (s', r, evs))
+    (hinv : InvT L toi s.objects) (hexp : Hexp toi now s'.fdtCurrent) :
+    ∀ i, Ev.attach toi i ∉ evs :=
+  pushFdtObjP_na L toi (dropConflict s p) s' p now ans r evs h
+    (by rw [(dropConflict_frame s p).1]; exact hinv) hexp
+
 theorem step_quiet (L : I.Law) (toi : Nat) (s s' : State σ) (op : Op) (r : Res) (evs : List Ev)
     (h : step I s op = .ok (s', r, evs)) (hinv : InvT L toi s.objects)
     (hexp : Hexp toi op.now s'.fdtCurrent) :
